@@ -111,6 +111,73 @@ let w0 := (a0 - (b0 + 0)) % 2 ^ 32
      let t8 := (t7 / 2 ^ 29 + w8 % 2 ^ 29) + (if m = 0 then 0 else 1048576)
      [t0 % 2 ^ 29, t1 % 2 ^ 29, t2 % 2 ^ 29, t3 % 2 ^ 29, t4 % 2 ^ 29, t5 % 2 ^ 29, t6 % 2 ^ 29, t7 % 2 ^ 29, t8 % 2 ^ 29]) := rfl
 
+theorem sub_core (a0 a1 a2 a3 a4 a5 a6 a7 a8 b0 b1 b2 b3 b4 b5 b6 b7 b8 w0 w1 w2 w3 w4 w5 w6 w7 w8 m t0 t1 t2 t3 t4 t5 t6 t7 t8 : Int)
+    (ha : Lim (2 ^ 29) [a0, a1, a2, a3, a4, a5, a6, a7, a8]) (hb : Lim (2 ^ 29) [b0, b1, b2, b3, b4, b5, b6, b7, b8])
+    (hw0 : w0 = (a0 - (b0 + 0)) % 2 ^ 32)
+    (hw1 : w1 = (a1 - (b1 + w0 / 2 ^ 31)) % 2 ^ 32)
+    (hw2 : w2 = (a2 - (b2 + w1 / 2 ^ 31)) % 2 ^ 32)
+    (hw3 : w3 = (a3 - (b3 + w2 / 2 ^ 31)) % 2 ^ 32)
+    (hw4 : w4 = (a4 - (b4 + w3 / 2 ^ 31)) % 2 ^ 32)
+    (hw5 : w5 = (a5 - (b5 + w4 / 2 ^ 31)) % 2 ^ 32)
+    (hw6 : w6 = (a6 - (b6 + w5 / 2 ^ 31)) % 2 ^ 32)
+    (hw7 : w7 = (a7 - (b7 + w6 / 2 ^ 31)) % 2 ^ 32)
+    (hw8 : w8 = (a8 - (b8 + w7 / 2 ^ 31)) % 2 ^ 32)
+    (hmdef : m = w8 / 2 ^ 31)
+    (E0 : t0 = (0 + w0 % 2 ^ 29) + (if m = 0 then 0 else 485872621))
+    (E1 : t1 = (t0 / 2 ^ 29 + w1 % 2 ^ 29) + (if m = 0 then 0 else 9640146))
+    (E2 : t2 = (t1 / 2 ^ 29 + w2 % 2 ^ 29) + (if m = 0 then 0 else 501691798))
+    (E3 : t3 = (t2 / 2 ^ 29 + w3 % 2 ^ 29) + (if m = 0 then 0 else 502512965))
+    (E4 : t4 = (t3 / 2 ^ 29 + w4 % 2 ^ 29) + (if m = 0 then 0 else 333))
+    (E5 : t5 = (t4 / 2 ^ 29 + w5 % 2 ^ 29) + (if m = 0 then 0 else 0))
+    (E6 : t6 = (t5 / 2 ^ 29 + w6 % 2 ^ 29) + (if m = 0 then 0 else 0))
+    (E7 : t7 = (t6 / 2 ^ 29 + w7 % 2 ^ 29) + (if m = 0 then 0 else 0))
+    (E8 : t8 = (t7 / 2 ^ 29 + w8 % 2 ^ 29) + (if m = 0 then 0 else 1048576)) :
+    Lim (2 ^ 29) [t0 % 2 ^ 29, t1 % 2 ^ 29, t2 % 2 ^ 29, t3 % 2 ^ 29, t4 % 2 ^ 29, t5 % 2 ^ 29, t6 % 2 ^ 29, t7 % 2 ^ 29, t8 % 2 ^ 29] ∧
+    repZ [t0 % 2 ^ 29, t1 % 2 ^ 29, t2 % 2 ^ 29, t3 % 2 ^ 29, t4 % 2 ^ 29, t5 % 2 ^ 29, t6 % 2 ^ 29, t7 % 2 ^ 29, t8 % 2 ^ 29] = (repZ [a0, a1, a2, a3, a4, a5, a6, a7, a8] - repZ [b0, b1, b2, b3, b4, b5, b6, b7, b8]
+        + (if repZ [a0, a1, a2, a3, a4, a5, a6, a7, a8] < repZ [b0, b1, b2, b3, b4, b5, b6, b7, b8] then (ell : Int) else 0)) % 2 ^ 261 := by
+  have hlo : Lim (2 ^ 29) [t0 % 2 ^ 29, t1 % 2 ^ 29, t2 % 2 ^ 29, t3 % 2 ^ 29, t4 % 2 ^ 29, t5 % 2 ^ 29, t6 % 2 ^ 29, t7 % 2 ^ 29, t8 % 2 ^ 29] := by simp only [Lim, and_true]; omega
+  have hld : Lim (2 ^ 29) [w0 % 2 ^ 29, w1 % 2 ^ 29, w2 % 2 ^ 29, w3 % 2 ^ 29, w4 % 2 ^ 29, w5 % 2 ^ 29, w6 % 2 ^ 29, w7 % 2 ^ 29, w8 % 2 ^ 29] := by simp only [Lim, and_true]; omega
+  refine ⟨hlo, ?_⟩
+  have hA := repZ9_bd a0 a1 a2 a3 a4 a5 a6 a7 a8 ha
+  have hB := repZ9_bd b0 b1 b2 b3 b4 b5 b6 b7 b8 hb
+  have hD := repZ9_bd _ _ _ _ _ _ _ _ _ hld
+  have hO := repZ9_bd _ _ _ _ _ _ _ _ _ hlo
+  have hm : 0 ≤ m ∧ m ≤ 1 ∧
+      repZ [w0 % 2 ^ 29, w1 % 2 ^ 29, w2 % 2 ^ 29, w3 % 2 ^ 29, w4 % 2 ^ 29, w5 % 2 ^ 29, w6 % 2 ^ 29, w7 % 2 ^ 29, w8 % 2 ^ 29] + repZ [b0, b1, b2, b3, b4, b5, b6, b7, b8] = repZ [a0, a1, a2, a3, a4, a5, a6, a7, a8] + 2 ^ 261 * m := by
+    clear hlo hld hA hB hD hO E0 E1 E2 E3 E4 E5 E6 E7 E8
+    simp only [Lim, repZ] at ha hb ⊢
+    obtain ⟨h0a, h0b, h0⟩ := sub_limb a0 b0 0 w0 (by omega) (by omega) (by omega) (by omega) (by omega) (by omega) (by rw [hw0])
+    obtain ⟨h1a, h1b, h1⟩ := sub_limb a1 b1 _ w1 (by omega) (by omega) (by omega) (by omega) h0a h0b hw1
+    obtain ⟨h2a, h2b, h2⟩ := sub_limb a2 b2 _ w2 (by omega) (by omega) (by omega) (by omega) h1a h1b hw2
+    obtain ⟨h3a, h3b, h3⟩ := sub_limb a3 b3 _ w3 (by omega) (by omega) (by omega) (by omega) h2a h2b hw3
+    obtain ⟨h4a, h4b, h4⟩ := sub_limb a4 b4 _ w4 (by omega) (by omega) (by omega) (by omega) h3a h3b hw4
+    obtain ⟨h5a, h5b, h5⟩ := sub_limb a5 b5 _ w5 (by omega) (by omega) (by omega) (by omega) h4a h4b hw5
+    obtain ⟨h6a, h6b, h6⟩ := sub_limb a6 b6 _ w6 (by omega) (by omega) (by omega) (by omega) h5a h5b hw6
+    obtain ⟨h7a, h7b, h7⟩ := sub_limb a7 b7 _ w7 (by omega) (by omega) (by omega) (by omega) h6a h6b hw7
+    obtain ⟨h8a, h8b, h8⟩ := sub_limb a8 b8 _ w8 (by omega) (by omega) (by omega) (by omega) h7a h7b hw8
+    rw [hmdef]
+    refine ⟨h8a, h8b, ?_⟩
+    linear_combination 1 * h0 + 2 ^ 29 * h1 + 2 ^ 58 * h2 + 2 ^ 87 * h3 + 2 ^ 116 * h4 + 2 ^ 145 * h5 + 2 ^ 174 * h6 + 2 ^ 203 * h7 + 2 ^ 232 * h8
+  have ho : repZ [t0 % 2 ^ 29, t1 % 2 ^ 29, t2 % 2 ^ 29, t3 % 2 ^ 29, t4 % 2 ^ 29, t5 % 2 ^ 29, t6 % 2 ^ 29, t7 % 2 ^ 29, t8 % 2 ^ 29] + 2 ^ 261 * (t8 / 2 ^ 29)
+      = repZ [w0 % 2 ^ 29, w1 % 2 ^ 29, w2 % 2 ^ 29, w3 % 2 ^ 29, w4 % 2 ^ 29, w5 % 2 ^ 29, w6 % 2 ^ 29, w7 % 2 ^ 29, w8 % 2 ^ 29] + (if m = 0 then 0 else (ell : Int)) := by
+    rw [ell_eqZ]
+    simp only [repZ]
+    have D0 := Int.emod_add_mul_ediv t0 (2 ^ 29)
+    have D1 := Int.emod_add_mul_ediv t1 (2 ^ 29)
+    have D2 := Int.emod_add_mul_ediv t2 (2 ^ 29)
+    have D3 := Int.emod_add_mul_ediv t3 (2 ^ 29)
+    have D4 := Int.emod_add_mul_ediv t4 (2 ^ 29)
+    have D5 := Int.emod_add_mul_ediv t5 (2 ^ 29)
+    have D6 := Int.emod_add_mul_ediv t6 (2 ^ 29)
+    have D7 := Int.emod_add_mul_ediv t7 (2 ^ 29)
+    have D8 := Int.emod_add_mul_ediv t8 (2 ^ 29)
+    by_cases hm0 : m = 0
+    · simp only [if_pos hm0] at E0 E1 E2 E3 E4 E5 E6 E7 E8 ⊢
+      linear_combination 1 * (D0 + E0) + 2 ^ 29 * (D1 + E1) + 2 ^ 58 * (D2 + E2) + 2 ^ 87 * (D3 + E3) + 2 ^ 116 * (D4 + E4) + 2 ^ 145 * (D5 + E5) + 2 ^ 174 * (D6 + E6) + 2 ^ 203 * (D7 + E7) + 2 ^ 232 * (D8 + E8)
+    · simp only [if_neg hm0] at E0 E1 E2 E3 E4 E5 E6 E7 E8 ⊢
+      linear_combination 1 * (D0 + E0) + 2 ^ 29 * (D1 + E1) + 2 ^ 58 * (D2 + E2) + 2 ^ 87 * (D3 + E3) + 2 ^ 116 * (D4 + E4) + 2 ^ 145 * (D5 + E5) + 2 ^ 174 * (D6 + E6) + 2 ^ 203 * (D7 + E7) + 2 ^ 232 * (D8 + E8)
+  exact sub_final _ _ _ _ m (t8 / 2 ^ 29) hA hB hD hO ⟨hm.1, hm.2.1⟩ hm.2.2 ho
+
 /-- `sub` on arbitrary 29-bit limb vectors: `a - b`, plus `l` if that is negative, modulo `2^261`. -/
 theorem sub_fn_spec (a0 a1 a2 a3 a4 a5 a6 a7 a8 b0 b1 b2 b3 b4 b5 b6 b7 b8 : Int)
     (ha : Lim (2 ^ 29) [a0, a1, a2, a3, a4, a5, a6, a7, a8]) (hb : Lim (2 ^ 29) [b0, b1, b2, b3, b4, b5, b6, b7, b8]) :
@@ -120,37 +187,8 @@ theorem sub_fn_spec (a0 a1 a2 a3 a4 a5 a6 a7 a8 b0 b1 b2 b3 b4 b5 b6 b7 b8 : Int
         + (if repZ [a0, a1, a2, a3, a4, a5, a6, a7, a8] < repZ [b0, b1, b2, b3, b4, b5, b6, b7, b8] then (ell : Int) else 0)) % 2 ^ 261 := by
   rw [sub_fn_eq]
   extract_lets w0 w1 w2 w3 w4 w5 w6 w7 w8 m t0 t1 t2 t3 t4 t5 t6 t7 t8
-  have hlo : Lim (2 ^ 29) [t0 % 2 ^ 29, t1 % 2 ^ 29, t2 % 2 ^ 29, t3 % 2 ^ 29, t4 % 2 ^ 29, t5 % 2 ^ 29, t6 % 2 ^ 29, t7 % 2 ^ 29, t8 % 2 ^ 29] := by simp only [Lim, and_true]; omega
-  have hld : Lim (2 ^ 29) [w0 % 2 ^ 29, w1 % 2 ^ 29, w2 % 2 ^ 29, w3 % 2 ^ 29, w4 % 2 ^ 29, w5 % 2 ^ 29, w6 % 2 ^ 29, w7 % 2 ^ 29, w8 % 2 ^ 29] := by simp only [Lim, and_true]; omega
-  refine ⟨_, _, _, _, _, _, _, _, _, rfl, hlo, ?_⟩
-  have hA := repZ9_bd a0 a1 a2 a3 a4 a5 a6 a7 a8 ha
-  have hB := repZ9_bd b0 b1 b2 b3 b4 b5 b6 b7 b8 hb
-  have hD := repZ9_bd _ _ _ _ _ _ _ _ _ hld
-  have hO := repZ9_bd _ _ _ _ _ _ _ _ _ hlo
-  have hm : 0 ≤ m ∧ m ≤ 1 ∧ repZ [w0 % 2 ^ 29, w1 % 2 ^ 29, w2 % 2 ^ 29, w3 % 2 ^ 29, w4 % 2 ^ 29, w5 % 2 ^ 29, w6 % 2 ^ 29, w7 % 2 ^ 29, w8 % 2 ^ 29] + repZ [b0, b1, b2, b3, b4, b5, b6, b7, b8] = repZ [a0, a1, a2, a3, a4, a5, a6, a7, a8] + 2 ^ 261 * m := by
-    simp only [Lim, repZ] at ha hb ⊢
-    obtain ⟨h0a, h0b, h0⟩ := sub_limb a0 b0 0 w0 (by omega) (by omega) (by omega) (by omega) (by omega) (by omega) rfl
-    obtain ⟨h1a, h1b, h1⟩ := sub_limb a1 b1 _ w1 (by omega) (by omega) (by omega) (by omega) h0a h0b rfl
-    obtain ⟨h2a, h2b, h2⟩ := sub_limb a2 b2 _ w2 (by omega) (by omega) (by omega) (by omega) h1a h1b rfl
-    obtain ⟨h3a, h3b, h3⟩ := sub_limb a3 b3 _ w3 (by omega) (by omega) (by omega) (by omega) h2a h2b rfl
-    obtain ⟨h4a, h4b, h4⟩ := sub_limb a4 b4 _ w4 (by omega) (by omega) (by omega) (by omega) h3a h3b rfl
-    obtain ⟨h5a, h5b, h5⟩ := sub_limb a5 b5 _ w5 (by omega) (by omega) (by omega) (by omega) h4a h4b rfl
-    obtain ⟨h6a, h6b, h6⟩ := sub_limb a6 b6 _ w6 (by omega) (by omega) (by omega) (by omega) h5a h5b rfl
-    obtain ⟨h7a, h7b, h7⟩ := sub_limb a7 b7 _ w7 (by omega) (by omega) (by omega) (by omega) h6a h6b rfl
-    obtain ⟨h8a, h8b, h8⟩ := sub_limb a8 b8 _ w8 (by omega) (by omega) (by omega) (by omega) h7a h7b rfl
-    have hmdef : m = w8 / 2 ^ 31 := rfl
-    clear_value w0 w1 w2 w3 w4 w5 w6 w7 w8 m
-    clear hlo hld hA hB hD hO
-    omega
-  have ho : repZ [t0 % 2 ^ 29, t1 % 2 ^ 29, t2 % 2 ^ 29, t3 % 2 ^ 29, t4 % 2 ^ 29, t5 % 2 ^ 29, t6 % 2 ^ 29, t7 % 2 ^ 29, t8 % 2 ^ 29] + 2 ^ 261 * (t8 / 2 ^ 29)
-      = repZ [w0 % 2 ^ 29, w1 % 2 ^ 29, w2 % 2 ^ 29, w3 % 2 ^ 29, w4 % 2 ^ 29, w5 % 2 ^ 29, w6 % 2 ^ 29, w7 % 2 ^ 29, w8 % 2 ^ 29] + (if m = 0 then 0 else (ell : Int)) := by
-    rw [ell_eqZ]
-    simp only [repZ]
-    clear hlo hld hA hB hD hO hm
-    by_cases hm0 : m = 0
-    · simp only [hm0, if_true, t0, t1, t2, t3, t4, t5, t6, t7, t8]; omega
-    · simp only [hm0, if_false, t0, t1, t2, t3, t4, t5, t6, t7, t8]; omega
-  exact sub_final _ _ _ _ m (t8 / 2 ^ 29) hA hB hD hO ⟨hm.1, hm.2.1⟩ hm.2.2 ho
+  exact ⟨_, _, _, _, _, _, _, _, _, rfl, sub_core a0 a1 a2 a3 a4 a5 a6 a7 a8 b0 b1 b2 b3 b4 b5 b6 b7 b8 w0 w1 w2 w3 w4 w5 w6 w7 w8 m t0 t1 t2 t3 t4 t5 t6 t7 t8 ha hb
+    rfl rfl rfl rfl rfl rfl rfl rfl rfl rfl rfl rfl rfl rfl rfl rfl rfl rfl rfl⟩
 
 theorem L_literal : toZ U32.L = [485872621, 9640146, 501691798, 502512965, 333, 0, 0, 0, 1048576] := rfl
 
@@ -207,6 +245,45 @@ let s0 := (a0 + b0) + 0
        sub_fn (s0 % 2 ^ 29) (s1 % 2 ^ 29) (s2 % 2 ^ 29) (s3 % 2 ^ 29) (s4 % 2 ^ 29) (s5 % 2 ^ 29) (s6 % 2 ^ 29) (s7 % 2 ^ 29) (s8 % 2 ^ 29)
          485872621 9640146 501691798 502512965 333 0 0 0 1048576) := rfl
 
+theorem add_core (a0 a1 a2 a3 a4 a5 a6 a7 a8 b0 b1 b2 b3 b4 b5 b6 b7 b8 s0 s1 s2 s3 s4 s5 s6 s7 s8 : Int)
+    (ha : Lim (2 ^ 29) [a0, a1, a2, a3, a4, a5, a6, a7, a8]) (hb : Lim (2 ^ 29) [b0, b1, b2, b3, b4, b5, b6, b7, b8])
+    (hal : repZ [a0, a1, a2, a3, a4, a5, a6, a7, a8] < ell) (hbl : repZ [b0, b1, b2, b3, b4, b5, b6, b7, b8] < ell)
+    (e0 : s0 = (a0 + b0) + 0)
+    (e1 : s1 = (a1 + b1) + s0 / 2 ^ 29)
+    (e2 : s2 = (a2 + b2) + s1 / 2 ^ 29)
+    (e3 : s3 = (a3 + b3) + s2 / 2 ^ 29)
+    (e4 : s4 = (a4 + b4) + s3 / 2 ^ 29)
+    (e5 : s5 = (a5 + b5) + s4 / 2 ^ 29)
+    (e6 : s6 = (a6 + b6) + s5 / 2 ^ 29)
+    (e7 : s7 = (a7 + b7) + s6 / 2 ^ 29)
+    (e8 : s8 = (a8 + b8) + s7 / 2 ^ 29) :
+    Lim (2 ^ 29) [s0 % 2 ^ 29, s1 % 2 ^ 29, s2 % 2 ^ 29, s3 % 2 ^ 29, s4 % 2 ^ 29, s5 % 2 ^ 29, s6 % 2 ^ 29, s7 % 2 ^ 29, s8 % 2 ^ 29] ∧
+    repZ [s0 % 2 ^ 29, s1 % 2 ^ 29, s2 % 2 ^ 29, s3 % 2 ^ 29, s4 % 2 ^ 29, s5 % 2 ^ 29, s6 % 2 ^ 29, s7 % 2 ^ 29, s8 % 2 ^ 29] = repZ [a0, a1, a2, a3, a4, a5, a6, a7, a8] + repZ [b0, b1, b2, b3, b4, b5, b6, b7, b8] := by
+  have hls : Lim (2 ^ 29) [s0 % 2 ^ 29, s1 % 2 ^ 29, s2 % 2 ^ 29, s3 % 2 ^ 29, s4 % 2 ^ 29, s5 % 2 ^ 29, s6 % 2 ^ 29, s7 % 2 ^ 29, s8 % 2 ^ 29] := by simp only [Lim, and_true]; omega
+  refine ⟨hls, ?_⟩
+  have hS := repZ9_bd _ _ _ _ _ _ _ _ _ hls
+  have hA := repZ9_bd a0 a1 a2 a3 a4 a5 a6 a7 a8 ha
+  have hB := repZ9_bd b0 b1 b2 b3 b4 b5 b6 b7 b8 hb
+  have key : repZ [s0 % 2 ^ 29, s1 % 2 ^ 29, s2 % 2 ^ 29, s3 % 2 ^ 29, s4 % 2 ^ 29, s5 % 2 ^ 29, s6 % 2 ^ 29, s7 % 2 ^ 29, s8 % 2 ^ 29] + 2 ^ 261 * (s8 / 2 ^ 29)
+      = repZ [a0, a1, a2, a3, a4, a5, a6, a7, a8] + repZ [b0, b1, b2, b3, b4, b5, b6, b7, b8] := by
+    simp only [repZ]
+    have D0 := Int.emod_add_mul_ediv s0 (2 ^ 29)
+    have D1 := Int.emod_add_mul_ediv s1 (2 ^ 29)
+    have D2 := Int.emod_add_mul_ediv s2 (2 ^ 29)
+    have D3 := Int.emod_add_mul_ediv s3 (2 ^ 29)
+    have D4 := Int.emod_add_mul_ediv s4 (2 ^ 29)
+    have D5 := Int.emod_add_mul_ediv s5 (2 ^ 29)
+    have D6 := Int.emod_add_mul_ediv s6 (2 ^ 29)
+    have D7 := Int.emod_add_mul_ediv s7 (2 ^ 29)
+    have D8 := Int.emod_add_mul_ediv s8 (2 ^ 29)
+    linear_combination 1 * (D0 + e0) + 2 ^ 29 * (D1 + e1) + 2 ^ 58 * (D2 + e2) + 2 ^ 87 * (D3 + e3) + 2 ^ 116 * (D4 + e4) + 2 ^ 145 * (D5 + e5) + 2 ^ 174 * (D6 + e6) + 2 ^ 203 * (D7 + e7) + 2 ^ 232 * (D8 + e8)
+  generalize repZ [s0 % 2 ^ 29, s1 % 2 ^ 29, s2 % 2 ^ 29, s3 % 2 ^ 29, s4 % 2 ^ 29, s5 % 2 ^ 29, s6 % 2 ^ 29, s7 % 2 ^ 29, s8 % 2 ^ 29] = S at *
+  generalize repZ [a0, a1, a2, a3, a4, a5, a6, a7, a8] = A at *
+  generalize repZ [b0, b1, b2, b3, b4, b5, b6, b7, b8] = B at *
+  generalize s8 / 2 ^ 29 = k at *
+  rw [ell_eqZ] at *
+  omega
+
 theorem add_fn_spec (a0 a1 a2 a3 a4 a5 a6 a7 a8 b0 b1 b2 b3 b4 b5 b6 b7 b8 : Int)
     (ha : Lim (2 ^ 29) [a0, a1, a2, a3, a4, a5, a6, a7, a8]) (hb : Lim (2 ^ 29) [b0, b1, b2, b3, b4, b5, b6, b7, b8])
     (hal : repZ [a0, a1, a2, a3, a4, a5, a6, a7, a8] < ell) (hbl : repZ [b0, b1, b2, b3, b4, b5, b6, b7, b8] < ell) :
@@ -215,23 +292,8 @@ theorem add_fn_spec (a0 a1 a2 a3 a4 a5 a6 a7 a8 b0 b1 b2 b3 b4 b5 b6 b7 b8 : Int
       repZ [o0, o1, o2, o3, o4, o5, o6, o7, o8] = (repZ [a0, a1, a2, a3, a4, a5, a6, a7, a8] + repZ [b0, b1, b2, b3, b4, b5, b6, b7, b8]) % ell := by
   rw [add_fn_eq]
   extract_lets s0 s1 s2 s3 s4 s5 s6 s7 s8
-  have hs : repZ [s0 % 2 ^ 29, s1 % 2 ^ 29, s2 % 2 ^ 29, s3 % 2 ^ 29, s4 % 2 ^ 29, s5 % 2 ^ 29, s6 % 2 ^ 29, s7 % 2 ^ 29, s8 % 2 ^ 29]
-      = repZ [a0, a1, a2, a3, a4, a5, a6, a7, a8] + repZ [b0, b1, b2, b3, b4, b5, b6, b7, b8] := by
-    simp only [Lim, repZ] at *
-    rw [ell_eqZ] at *
-    have e0 : s0 = (a0 + b0) + 0 := rfl
-    have e1 : s1 = (a1 + b1) + s0 / 2 ^ 29 := rfl
-    have e2 : s2 = (a2 + b2) + s1 / 2 ^ 29 := rfl
-    have e3 : s3 = (a3 + b3) + s2 / 2 ^ 29 := rfl
-    have e4 : s4 = (a4 + b4) + s3 / 2 ^ 29 := rfl
-    have e5 : s5 = (a5 + b5) + s4 / 2 ^ 29 := rfl
-    have e6 : s6 = (a6 + b6) + s5 / 2 ^ 29 := rfl
-    have e7 : s7 = (a7 + b7) + s6 / 2 ^ 29 := rfl
-    have e8 : s8 = (a8 + b8) + s7 / 2 ^ 29 := rfl
-    clear_value s0 s1 s2 s3 s4 s5 s6 s7 s8
-    omega
-  obtain ⟨o0, o1, o2, o3, o4, o5, o6, o7, o8, he, hl, hv⟩ := sub_fn_L_spec (s0 % 2 ^ 29) (s1 % 2 ^ 29) (s2 % 2 ^ 29) (s3 % 2 ^ 29) (s4 % 2 ^ 29) (s5 % 2 ^ 29) (s6 % 2 ^ 29) (s7 % 2 ^ 29) (s8 % 2 ^ 29)
-    (by simp only [Lim, and_true]; omega) (by rw [hs]; omega)
+  obtain ⟨hls, hs⟩ := add_core a0 a1 a2 a3 a4 a5 a6 a7 a8 b0 b1 b2 b3 b4 b5 b6 b7 b8 s0 s1 s2 s3 s4 s5 s6 s7 s8 ha hb hal hbl rfl rfl rfl rfl rfl rfl rfl rfl rfl
+  obtain ⟨o0, o1, o2, o3, o4, o5, o6, o7, o8, he, hl, hv⟩ := sub_fn_L_spec _ _ _ _ _ _ _ _ _ hls (by rw [hs]; omega)
   exact ⟨o0, o1, o2, o3, o4, o5, o6, o7, o8, he, hl, by rw [hv, hs]⟩
 
 end Dalek.Proofs.Scalar29
